@@ -69,8 +69,16 @@ MUTANTS["C01"] = [
      "outputs = sort_vars(outputs)", "outputs = list(outputs)", "R-C01.6"),
     ("return vars appended instead of prepended for predecessors", _cfgc,
      "pred.sig = Signature(pred.sig.input_row, [[*return_vars, *out_row]])", "pred.sig = Signature(pred.sig.input_row, [[*out_row]])", "R-C01.4"),
-    ("struct store keeps stale aggregate wire", _core,
-     "            self.locals.pop(place.id, None)\n        # Same for tuples.", "            pass\n        # Same for tuples.", "R-C01.5"),
+    # (benign since /repo 7da4cc1: every leaf store forgets the packed wires of its enclosing places, so the struct-level pop
+    #  after the field loop has become redundant -- before that fix this variant was reported by clause a of R-C01.5)
+    ("benign: struct store without its own (now redundant) pop of the aggregate wire", _core,
+     "            self.locals.pop(place.id, None)\n        # Same for tuples.", "            pass\n        # Same for tuples.", None),
+    ("leaf store keeps the packed wire of the enclosing struct", _core,
+     "            while isinstance(place, FieldAccess | TupleAccess):\n                place = place.parent\n                self.locals.pop(place.id, None)",
+     "            pass", "R-C01.5"),
+    ("leaf store forgets only the direct parent's packed wire", _core,
+     "            while isinstance(place, FieldAccess | TupleAccess):\n                place = place.parent\n                self.locals.pop(place.id, None)",
+     "            if isinstance(place, FieldAccess | TupleAccess):\n                place = place.parent\n                self.locals.pop(place.id, None)", "R-C01.5"),
     ("linear leaves stay bound after packing", _core,
      "            if child.ty.linear:\n                self.locals.pop(child.id)", "            if child.ty.linear and False:\n                self.locals.pop(child.id)", "R-C01.5"),
     ("tuple packed in reverse order", _core,
